@@ -31,7 +31,7 @@ var hostile = []string{
 	`{"type":"x","data":{}}`, `{"type":"","data":{}}`, `{"type":null}`, `{"data":{}}`, `{"type":{"a":1}}`, "poll://", "poll:///", "poll://g/", "poll://g/i/j", "http://", "https://127.0.0.1:1/x", "http://127.0.0.1:1", "ftp://x", "://", "http://%zz", "http://[::1",
 }
 
-var crons = []string{"* * * * * *", "*/1 * * * * *", "@every 1s", "* * * * *", "0 0 31 2 *", "0 0 30 2 *", "@every 0s", "@every -1s", "@every 100000h", "60 * * * *", "* * * * * * *", "", "bad", "@yearly", "@reboot", "TZ=Nowhere * * * * *", "CRON_TZ=UTC * * * * * *", "*/0 * * * *", "1-0 * * * *", "* * * * 8", "0 0 1 1 * 2099"}
+var crons = []string{"* * * * * *", "*/1 * * * * *", "@every 1s", "* * * * *", "0 0 31 2 *", "0 0 30 2 *", "@every 0s", "@every -1s", "@every 100000h", "60 * * * *", "* * * * * * *", "", "bad", "@yearly", "@reboot", "TZ=Nowhere * * * * *", "CRON_TZ=UTC * * * * * *", "TZ=UTC", "CRON_TZ=UTC", "TZ=", "CRON_TZ=x", "*/0 * * * *", "1-0 * * * *", "* * * * 8", "0 0 1 1 * 2099"}
 
 // ---------------------------------------------------------------------------
 
@@ -498,7 +498,7 @@ func (g *gen) schedule(pfx string) scenario {
 	body := map[string]any{"id": id, "desc": g.hostile("desc"), "cron": cron, "tags": map[string]any{"k": g.hostile("stag")}, "promiseId": tmpl, "promiseTimeout": g.pick1([]int64{0, 1, 300, -1, 1 << 62, -(1 << 62)}, "ptimeout"),
 		"promiseParam": map[string]any{"headers": map[string]any{"h": g.hostile("ph")}, "data": "eA=="}, "promiseTags": ptags}
 	st := step{HTTPReq: post("/schedules", body, nil), mutation: fmt.Sprintf("cron=%q template=%q ptags=%v", cron, tmpl, ptags)}
-	if cron == "" || cron == "bad" {
+	if cron == "" || cron == "bad" || ((strings.HasPrefix(cron, "TZ=") || strings.HasPrefix(cron, "CRON_TZ=")) && !strings.Contains(cron, " ")) {
 		st.invalid, st.noTrace = true, true
 	}
 	sc.steps = append(sc.steps, st)
@@ -612,7 +612,7 @@ func (g *gen) grpc(pfx string) scenario {
 		})
 	case 5:
 		cron := g.pick(crons, "gcron")
-		add("CreateSchedule", cron == "" || cron == "bad", func(c *GrpcClients, ctx context.Context) error {
+		add("CreateSchedule", cron == "" || cron == "bad" || ((strings.HasPrefix(cron, "TZ=") || strings.HasPrefix(cron, "CRON_TZ=")) && !strings.Contains(cron, " ")), func(c *GrpcClients, ctx context.Context) error {
 			_, err := c.Schedules.CreateSchedule(ctx, &pb.CreateScheduleRequest{Id: pfx + "sch", Cron: cron, PromiseId: g.pick([]string{pfx + "x.{{.timestamp}}", "{{", h}, "gtmpl"), PromiseTimeout: 300, PromiseTags: map[string]string{"resonate:invoke": h}})
 			return err
 		})
